@@ -77,6 +77,15 @@ def scripts_for(rnd, pairs, others):
             for sv in (0, 1):
                 out.append((sv, bytes([OP_CHECKMULTISIG]), stack, "shared-sig:multisig"))
                 out.append((sv, bytes([OP_CHECKMULTISIGVERIFY, 0x51]), stack, "shared-sig:multisigverify"))
+    # a key is its bytes: the listed signature offered for the x-only form of a listed compressed key (and the other way round) is not a listed pair
+    for (s0, k0) in pool:
+        alts = [k0[1:]] if (len(k0) == 33 and k0[0] in (2, 3)) else ([b"\x02" + k0, b"\x03" + k0] if len(k0) == 32 else [])
+        for k1 in alts:
+            if any(k1 == k for _, k in pool): continue
+            for sv in (0, 1, 2, 3):
+                out.append((sv, bytes([OP_CHECKSIG]), [s0, k1], "other-encoding:checksig"))
+            out.append((3, bytes([OP_CHECKSIGADD]), [s0, b"\x02", k1], "other-encoding:checksigadd"))
+            out.append((3, bytes([OP_CHECKSIGVERIFY, 0x51]), [s0, k1], "other-encoding:checksigverify"))
     # the same (signature, key) offered twice in one session: the second evaluation must answer as the first did
     OP_DROP = 0x75
     for kind in ("listed", "wrong-sig", "wrong-key", "crossed", "unlisted"):
